@@ -99,8 +99,28 @@ fn write_case(em: &mut Emitter, n: u64) {
     });
 }
 
+/// The length octets of an end-of-contents marker obey the same rules as any other length: `d` (an
+/// encoding of zero) closes an indefinite SEQUENCE read by a closure that takes its one field and returns,
+/// and by one that polls for a further value.
+fn eoc_marker_accepted(mode: u8, d: &[u8]) -> Option<(bool, bool)> {
+    catch(|| {
+        let mut data = vec![0x30u8, 0x80, 0x02, 0x01, 0x05, 0x00]; data.extend_from_slice(d);
+        let fixed = Constructed::decode(data.as_slice().into_source(), mode_of(mode), |cons| cons.take_sequence(|c| c.take_u8())).is_ok();
+        let polled = Constructed::decode(data.as_slice().into_source(), mode_of(mode), |cons| cons.take_sequence(|c| {
+            let v = c.take_u8()?; if c.take_opt_u8()?.is_some() { return Err(c.content_err("more")) } Ok(v) })).is_ok();
+        (fixed, polled)
+    })
+}
+
 fn read_case(em: &mut Emitter, mode: u8, d: &[u8]) {
     em.case(1302, &[num_arg(mode), bytes_arg(d)], || {
+        let zero_form = match d { [0] => true, [b0, rest @ ..] if (0x81..=0x84).contains(b0) && rest.len() == (*b0 - 0x80) as usize && rest.iter().all(|&x| x == 0) => true, _ => false };
+        if zero_form {
+            let want = mode == 0 || (mode == 1 && d == [0]);
+            if eoc_marker_accepted(mode, d) != Some((want, want)) {
+                return (Ints::new().n(-7), Oracle::Fail("end-of-contents-length-octets-not-read-under-the-mode".into()), true)
+            }
+        }
         let r = probe_read(mode, d);
         let (obs, oracle) = match r {
             Some((p, n, c)) => {
